@@ -45,6 +45,13 @@ theorem parse_ok_iff (ts : List Token) (e : Engine) :
 
 /-! ### evaluation never panics -/
 
+/-- package q evaluates on the goroutine that called `Engine.Evaluate`: its sources contain no
+    `go` statement and no worker-pool call (regenerated go/ast fact; when the sources cannot be
+    located the fact is `none` and only the correspondence ties this).  The deferred recover of
+    `Evaluate` — the flag `evalTop_no_panic` rests on — protects that goroutine only: a panic on
+    any other goroutine ends the process. -/
+theorem evaluation_on_one_goroutine : Generated.Query.concurrencySites.getD [] = [] := by decide
+
 /-- `evalTop_no_panic`.  With the deferred recover in `Engine.Evaluate` (regenerated flag) no
     evaluation ends in a panic, for every program, every document list and every fuel. -/
 theorem evalTop_no_panic (now fuel : Nat) (docs : List Forest) (eng : Engine) (p : PanicSite) :
